@@ -34,6 +34,9 @@ def families(tier):
         {'name': 'threads-bf', 'params': {'P': 1, 'prefix': True}, 'weight': 2},
         {'name': 'threads-sb', 'params': {'P': 2, 'prefix': False}, 'weight': 1},
         {'name': 'threads-bf', 'params': {'P': 3, 'prefix': False}, 'weight': 3},
+        # pre-emption points also right after every lock release (a claim completed outside its critical section)
+        {'name': 'threads-bf', 'params': {'P': 2, 'prefix': False, 'release_points': True}, 'weight': 3},
+        {'name': 'threads-sb', 'params': {'P': 2, 'prefix': False, 'release_points': True}, 'weight': 2},
         {'name': 'threads-bf', 'params': {'P': 2, 'prefix': True}, 'weight': 3},
         {'name': 'threads-reuse', 'params': {'P': 2, 'prefix': True}, 'weight': 3},
         # the contested file is not the first node of the cached subtree being taken over; afterwards an earlier node's key is called
@@ -224,6 +227,7 @@ def threads(eng, fam, P):
 
         def root(b):
             s = Sched(eng, P['P'])
+            Sched.release_points = bool(P.get('release_points'))
             hook = install(w, s)
             res = {}
             ts = [s.spawn(lambda i=i: res.__setitem__(i, caller(b, i, calls)), 'w%d' % i) for i in range(2)]
@@ -292,4 +296,5 @@ def threads(eng, fam, P):
         eng.sample({'scenario': fam, 'P': P['P'], 'results': v, 'schedule': info.get('trace')})
     finally:
         Sched.cur = None
+        Sched.release_points = False
         w.close()
